@@ -4,8 +4,20 @@
 (* fails closed (RFC 7672; internal/target/remote/dane.go:verifyDANE,     *)
 (* security.go:daneDelivery.CheckConn).                                    *)
 (*                                                                         *)
-(* Decision table (BUILDING.md pattern B):                                 *)
-(*   input   in  = [chain, hs, lookup, recs]                               *)
+(* Decision table (BUILDING.md pattern B) with a history dimension:        *)
+(*   input   in  = [mode, rounds]: what ONE per-message delivery object of *)
+(*                 mx_auth.dane is asked, MX candidate after MX candidate  *)
+(*                 (PrepareConn starts the TLSA lookup for the MX,         *)
+(*                 CheckConn judges the connection to it).  A round is     *)
+(*                 [chain, hs, lookup, recs, disc]; every round is another *)
+(*                 MX with its own TLSA RRset and its own certificate      *)
+(*                 chain.                                                   *)
+(*             mode   "seq": PrepareConn, CheckConn per round, in order;   *)
+(*                    "overlap": the connection attempt to every MX but    *)
+(*                    the last is given up before its TLSA lookup is       *)
+(*                    answered; the late answers arrive after PrepareConn  *)
+(*                    for the last MX and before its own answers; only the *)
+(*                    last round has a CheckConn                            *)
 (*             recs   sequence of TLSA records [u, s, m, match]: usage,    *)
 (*                    selector, matching type as raw numbers (also out of  *)
 (*                    range) and the certificate of the chain the          *)
@@ -20,15 +32,20 @@
 (*                    is run against a DNS server answering the address    *)
 (*                    query with a (ad/noad/nxdomain/servfail) and the     *)
 (*                    TLSA query with tlsa; recs is what is published      *)
-(*   output  out = [auth, refuse, temp]                                    *)
+(*   output  out = one [auth, refuse, temp] per round                      *)
 (*             auth   the policy reports the connection as authenticated   *)
 (*             refuse the policy returns an error (no delivery over this   *)
 (*                    connection); temp: the error is marked temporary     *)
 (*                                                                         *)
 (* Prop is the property statement, predicate by predicate; Rule is the     *)
 (* procedure of RFC 7672 sections 2.1.1, 2.2, 3.1.1, 3.1.2 written step by  *)
-(* step.  TLC checks Prop(in, Rule(in)) for every input and prints the     *)
-(* rows; DaneTrace.tla evaluates the same Prop on what the real code       *)
+(* step, both for one round.  The property speaks about "the TLSA records  *)
+(* published for an MX": in a history every observed round must satisfy    *)
+(* the predicates with that MX's own records and chain (ViolH), and the    *)
+(* rule for a history is the single-round rule applied round by round      *)
+(* (RuleH) - nothing learnt for one MX may be used for another.  TLC       *)
+(* checks ViolH(in, RuleH(in)) = {} for every input and prints the rows;   *)
+(* DaneTrace.tla evaluates the same predicates on what the real code       *)
 (* returned for every row.                                                 *)
 (***************************************************************************)
 EXTENDS Naturals, Sequences, FiniteSets, TLC, Json
@@ -98,29 +115,51 @@ ChainIdx(ch) == CHOOSE i \in 1..Len(ChainSeq) : ChainSeq[i] = ch
 Rec(raw, mt) == [u |-> raw.u, s |-> raw.s, m |-> raw.m, match |-> mt]
 Row(ch, hs, lk, recs, disc) == [chain |-> ch, hs |-> hs, lookup |-> lk, recs |-> recs, disc |-> disc]
 
+H1(r) == [mode |-> "seq", rounds |-> <<r>>]      \* a fresh delivery object asked about one MX
+
 (* written as predicates on `in` so that TLC enumerates the rows one by one *)
 InMulti ==
   \/ \E ms \in MS, ch \in Chains, salt \in Salts :
-       in = Row(ch, TRUE, "ok", Concretise(ms, salt + 3 * ChainIdx(ch)), NoDisc)
+       in = H1(Row(ch, TRUE, "ok", Concretise(ms, salt + 3 * ChainIdx(ch)), NoDisc))
   \/ \E ms \in MS, salt \in Salts :
-       in = Row("leaf_int", FALSE, "ok", Concretise(ms, salt), NoDisc)
+       in = H1(Row("leaf_int", FALSE, "ok", Concretise(ms, salt), NoDisc))
 
 InSingle ==
   \/ \E i \in DOMAIN AllRaw, mt \in Matches, ch \in Chains :
-       in = Row(ch, TRUE, "ok", <<Rec(AllRaw[i], mt)>>, NoDisc)
+       in = H1(Row(ch, TRUE, "ok", <<Rec(AllRaw[i], mt)>>, NoDisc))
   \/ \E i \in DOMAIN AllRaw, mt \in Matches :
-       in = Row("leaf_int", FALSE, "ok", <<Rec(AllRaw[i], mt)>>, NoDisc)
+       in = H1(Row("leaf_int", FALSE, "ok", <<Rec(AllRaw[i], mt)>>, NoDisc))
 
 InLookup ==
   \E ch \in {"leaf_int_root", "wrongname"}, h \in BOOLEAN, lk \in {"notfound", "error"} :
-    in = Row(ch, h, lk, <<>>, NoDisc)
+    in = H1(Row(ch, h, lk, <<>>, NoDisc))
 
 (* discovery sub-machine: address lookup (with its AD bit) and TLSA lookup *)
 DiscA    == {"ad", "noad", "nxdomain", "servfail"}
 DiscTLSA == {"recs_ad", "recs_noad", "nodata", "nxdomain", "servfail"}
 InDisc ==
   \E h \in BOOLEAN, mt \in {"leaf", "none"}, a \in DiscA, t \in DiscTLSA :
-    in = Row("leaf_int", h, "disc", <<[u |-> 3, s |-> 1, m |-> 1, match |-> mt]>>, [a |-> a, tlsa |-> t])
+    in = H1(Row("leaf_int", h, "disc", <<[u |-> 3, s |-> 1, m |-> 1, match |-> mt]>>, [a |-> a, tlsa |-> t]))
+
+(* histories: 2 or 3 MX candidates served by the same delivery object, each *)
+(* one of these situations (its own records, chain, DNS answers)            *)
+DRow(ch, hs, rec, a, t) == Row(ch, hs, "disc", <<rec>>, [a |-> a, tlsa |-> t])
+EE(mt) == [u |-> 3, s |-> 1, m |-> 1, match |-> mt]
+TA(mt) == [u |-> 2, s |-> 0, m |-> 1, match |-> mt]
+Scen == << DRow("leaf_int", TRUE, EE("leaf"), "ad", "recs_ad"),            \* authenticated (EE)
+           DRow("leaf_int", TRUE, EE("none"), "ad", "recs_ad"),            \* usable, no match: refused
+           DRow("leaf_int", TRUE, EE("leaf"), "ad", "nodata"),             \* no records
+           DRow("leaf_int_root", TRUE, TA("root"), "ad", "recs_ad"),       \* authenticated (TA)
+           DRow("wrongname", TRUE, TA("int"), "ad", "recs_ad"),            \* TA, wrong name: refused
+           DRow("leaf_int", TRUE, EE("leaf"), "servfail", "recs_ad"),      \* lookup error
+           DRow("leaf_int", FALSE, EE("leaf"), "ad", "recs_ad"),           \* records, no TLS: refused
+           DRow("leaf_int", TRUE, EE("leaf"), "noad", "recs_ad"),          \* insecure zone
+           DRow("leaf_int", TRUE, [u |-> 1, s |-> 0, m |-> 1, match |-> "leaf"], "ad", "recs_ad") >> \* unusable only
+InHistory ==
+  \/ \E n \in 2..3 : \E sc \in [1..n -> DOMAIN Scen] :
+       in = [mode |-> "seq", rounds |-> [k \in 1..n |-> Scen[sc[k]]]]
+  \/ \E sc \in [1..2 -> DOMAIN Scen] :
+       in = [mode |-> "overlap", rounds |-> [k \in 1..2 |-> Scen[sc[k]]]]
 
 (* what a discovery amounts to (RFC 7672 2.1.1, 2.2): a failed lookup is an  *)
 (* error, a secure denial or an insecure answer is "no records"              *)
@@ -207,23 +246,36 @@ Rule(i0) ==
          IN IF LeafValid(i.chain) /\ path THEN Authentic ELSE Refuse   \* 3.1.2: name and validity checked
 
 -----------------------------------------------------------------------------
-Init == InMulti \/ InSingle \/ InLookup \/ InDisc
+(* histories: the single-round rule round by round; the predicates on every *)
+(* round that has a CheckConn                                                *)
+RuleH(h) == [k \in DOMAIN h.rounds |-> Rule(h.rounds[k])]
+Observed(h) == IF h.mode = "overlap" THEN {Len(h.rounds)} ELSE DOMAIN h.rounds
+ViolH(h, o) == UNION {Viol(h.rounds[k], o[k]) : k \in Observed(h)}
+PropH(h, o) == ViolH(h, o) = {}
+
+Init == InMulti \/ InSingle \/ InLookup \/ InDisc \/ InHistory
 Next == FALSE /\ UNCHANGED in      \* one state per input (run with CHECK_DEADLOCK FALSE)
 Spec == Init /\ [][Next]_vars
 
-RuleSatisfiesProp == Prop(in, Rule(in))
+RuleSatisfiesProp == PropH(in, RuleH(in))
 (* the rule authenticates exactly under the stated condition, and refuses  *)
 (* exactly in the two stated cases (plus lookup errors)                     *)
 RuleExact ==
-  LET o == Rule(in)  i == Eff(in) IN
-    /\ o.auth <=> AuthCond(i)
-    /\ o.refuse <=> \/ i.lookup = "error"
-                    \/ (i.lookup = "ok" /\ i.recs # <<>> /\ ~i.hs)
-                    \/ (i.lookup = "ok" /\ UsableRecs(i) # {} /\ ~AuthCond(i))
-TypeOK == /\ in.chain \in Chains /\ in.hs \in BOOLEAN /\ in.lookup \in {"ok", "notfound", "error", "disc"}
-          /\ Len(in.recs) <= MaxRecs
-          /\ \A r \in RecSet(in) : r.match \in Matches
+  \A k \in DOMAIN in.rounds :
+    LET o == Rule(in.rounds[k])  i == Eff(in.rounds[k]) IN
+      /\ o.auth <=> AuthCond(i)
+      /\ o.refuse <=> \/ i.lookup = "error"
+                      \/ (i.lookup = "ok" /\ i.recs # <<>> /\ ~i.hs)
+                      \/ (i.lookup = "ok" /\ UsableRecs(i) # {} /\ ~AuthCond(i))
+TypeOK == /\ in.mode \in {"seq", "overlap"} /\ Len(in.rounds) \in 1..3
+          /\ \A k \in DOMAIN in.rounds :
+               LET r == in.rounds[k] IN
+                 /\ r.chain \in Chains /\ r.hs \in BOOLEAN /\ r.lookup \in {"ok", "notfound", "error", "disc"}
+                 /\ Len(r.recs) <= MaxRecs
+                 /\ \A x \in RecSet(r) : x.match \in Matches
+                 /\ (Len(in.rounds) > 1 => r.lookup = "disc")   \* several MXs: always the real PrepareConn
 
-Emit == Gen => PrintT(<<"ROW", ToJson([in |-> in, exp |-> Rule(in),
-                                       cls |-> [k \in DOMAIN in.recs |-> Kind(in.recs[k])]])>>)
+Emit == Gen => PrintT(<<"ROW", ToJson([in |-> in, exp |-> RuleH(in),
+                                       cls |-> [k \in DOMAIN in.rounds |->
+                                                  [j \in DOMAIN in.rounds[k].recs |-> Kind(in.rounds[k].recs[j])]]])>>)
 =============================================================================
